@@ -119,6 +119,35 @@ func (g *ValGen) Time() time.Time {
 	return time.Unix(sec, ns).In(time.FixedZone("", off))
 }
 
+// FitTimesToLayout replaces every time.Time inside v (through Maybe / Nullable
+// wrappers, slices and named time types) by the nearest value the Go layout named by
+// expr (x-goag-go-time-format) can express: second precision, and UTC for layouts
+// without a zone, midnight for date-only layouts.
+func FitTimesToLayout(v reflect.Value, expr string) {
+	layout := specgen.GoLayout(expr)
+	if layout == "" || !v.IsValid() {
+		return
+	}
+	switch {
+	case v.Type() == timeType || v.Type().ConvertibleTo(timeType) && v.Kind() == reflect.Struct && v.Type().NumField() == timeType.NumField():
+		if !v.CanSet() {
+			return
+		}
+		tm := v.Convert(timeType).Interface().(time.Time)
+		if fitted, err := time.Parse(layout, tm.Format(layout)); err == nil {
+			v.Set(reflect.ValueOf(fitted).Convert(v.Type()))
+		}
+	case v.Kind() == reflect.Struct:
+		for i := 0; i < v.NumField(); i++ {
+			FitTimesToLayout(v.Field(i), expr)
+		}
+	case v.Kind() == reflect.Slice:
+		for i := 0; i < v.Len(); i++ {
+			FitTimesToLayout(v.Index(i), expr)
+		}
+	}
+}
+
 // JSONTree draws a JSON-shaped Go tree (what encoding/json decodes into `any`).
 func (g *ValGen) JSONTree(depth int) any {
 	t := g.T
